@@ -44,7 +44,7 @@ Step ==
      CASE e.k = "init" ->
             /\ T' = TreeOfInit(e) /\ f' = [c \in DOMAIN e.f |-> SubSeq(e.f[c], 1, 3)] /\ err' = InitStep(e) /\ ph' = "told" /\ UNCHANGED <<grown, inside>>
        [] e.k = "mk" ->
-            LET c0 == MkCheck(PP, T, e) IN
+            LET c0 == MkCheckEv(PP, T, e, LAMBDA d : f[d][1] > 0) IN
             /\ err' = IF c0 # "ok" THEN c0 ELSE IF T.dep[e.p] < PP.sd THEN "vroom.expanded-above-ranking-depth" ELSE "ok"
             /\ T' = IF c0 = "ok" THEN MkApply(PP, T, e) ELSE T
             /\ f' = IF c0 = "ok" THEN f \o [j \in DOMAIN e.nf |-> SubSeq(e.nf[j], 2, 4)] ELSE f
